@@ -3,8 +3,10 @@
   Property theorems only; helper lemmas live in Adsg/Proofs/Closure.lean and Adsg/Proofs/Steps.lean.
 -/
 import Adsg.Model.Steps
+import Adsg.Model.Traversal
 import Adsg.Proofs.Closure
 import Adsg.Proofs.Steps
+import Adsg.Proofs.Traversal
 namespace Adsg.C02
 open Adsg
 
@@ -73,5 +75,90 @@ example : run exG (fullOff exG) [(0, 1), (1, 0)] [] = some [(1, 0), (0, 1)] := b
 example : nextChoices exG [(1, 0), (0, 1)] = [] := by decide
 example : sortNat (closure exG (assignOf exG [(1, 0), (0, 1)])) = [0, 1, 3, 4, 5] := by decide
 example : (allRows exG).length = 3 := by decide
+
+/-! ### Function level: what a node confirms (graph/traversal.py) -/
+
+/-- `DerivReach g vs v`: `v` is reachable from `vs` over derivation edges only (no choice taken). -/
+abbrev DerivReach (g : DSG) (vs : List Node) (v : Node) : Prop := Reach (g.from vs) [] v
+
+theorem from_wf (g : DSG) (hw : g.WF = true) (vs : List Node) (hv : ∀ v ∈ vs, v < g.n) : (g.from vs).WF = true := by
+  unfold DSG.WF DSG.from at *
+  simp only [Bool.and_eq_true, List.all_eq_true, decide_eq_true_eq] at hw ⊢
+  exact ⟨⟨⟨⟨hw.1.1.1.1, hw.1.1.1.2⟩, hv⟩, hw.1.2⟩, hw.2⟩
+
+/-- The nodes a set of nodes confirms are exactly those reachable over derivation edges. -/
+theorem confirmedFrom_exact (g : DSG) (hw : g.WF = true) (vs : List Node) (hv : ∀ v ∈ vs, v < g.n) (v : Node) :
+    v ∈ confirmedFrom g vs ↔ DerivReach g vs v :=
+  mem_closure_iff_reach (g.from vs) (from_wf g hw vs hv) [] v
+
+/-- **The confirmed edges of a node are complete and sound**: a derivation edge is confirmed by `v`
+    exactly if its source is reachable from `v` over derivation edges - whatever was asked before
+    (the function has no state in the model; the implementation's cache must be transparent). -/
+theorem confirmedEdges_exact (g : DSG) (hw : g.WF = true) (v : Node) (hv : v < g.n) (e : Node × Node) :
+    e ∈ confirmedEdges g v ↔ e ∈ g.derives ∧ DerivReach g [v] e.1 := by
+  unfold confirmedEdges
+  rw [List.mem_filter]
+  constructor
+  · rintro ⟨he, hc⟩
+    exact ⟨he, (confirmedFrom_exact g hw [v] (by simpa using hv) e.1).1 (by simpa using hc)⟩
+  · rintro ⟨he, hr⟩
+    exact ⟨he, by simpa using (confirmedFrom_exact g hw [v] (by simpa using hv) e.1).2 hr⟩
+
+/-- Confirmation is monotone along derivation: what a confirmed node confirms is confirmed. -/
+theorem confirmedEdges_trans (g : DSG) (hw : g.WF = true) (u v : Node) (hu : u < g.n) (hv : v < g.n)
+    (huv : DerivReach g [u] v) (e : Node × Node) (he : e ∈ confirmedEdges g v) : e ∈ confirmedEdges g u := by
+  rw [confirmedEdges_exact g hw v hv] at he
+  rw [confirmedEdges_exact g hw u hu]
+  refine ⟨he.1, ?_⟩
+  -- reachability composes
+  have key : ∀ w, Reach (g.from [v]) [] w → Reach (g.from [u]) [] w := by
+    intro w hwr
+    induction hwr with
+    | @start x hs =>
+      have hx : x = v := by simpa [DSG.from] using hs
+      rw [hx]; exact huv
+    | step _ hs ih => exact Reach.step ih hs
+  exact key _ he.2
+
+example : confirmedEdges { n := 5, derives := [(0, 1), (1, 2), (3, 4), (2, 1)], sel := [⟨2, [3]⟩], start := [0], incompat := [] } 1
+    = [(1, 2), (2, 1)] := by decide
+
+/-! ### `set_start_nodes`: pruning to the derivable nodes (graph/adsg_basic.py:67-105) -/
+
+/-- Whatever choices are made, an architecture only contains derivable nodes. -/
+theorem closure_sub_derivable (g : DSG) (hw : g.WF = true) (a : Assign) (v : Node) (h : v ∈ closure g a) :
+    v ∈ derivable g :=
+  mem_derivable_of_mem_closure g hw a v h
+
+/-- The pruned graph is well formed. -/
+theorem pruneStart_wf (g : DSG) (hw : g.WF = true) : (pruneStart g).WF = true :=
+  pruneStart_wellFormed g hw
+
+/-- **Pruning changes no architecture**: for every assignment the instance of the pruned graph has
+    exactly the nodes of the instance of the original graph. -/
+theorem pruneStart_closure (g : DSG) (hw : g.WF = true) (a : Assign) (v : Node) :
+    v ∈ closure (pruneStart g) a ↔ v ∈ closure g a :=
+  pruneStart_mem_closure g hw a v
+
+/-- … the same choices are active, … -/
+theorem pruneStart_activeChoices (g : DSG) (hw : g.WF = true) (a : Assign) :
+    activeChoices (pruneStart g) a = activeChoices g a :=
+  pruneStart_activeChoices_eq g hw a
+
+/-- … and the same assignments are admissible. -/
+theorem pruneStart_admissible (g : DSG) (hw : g.WF = true) (a : Assign) :
+    admissible (pruneStart g) a = admissible g a :=
+  pruneStart_admissible_eq g hw a
+
+/-- Nothing underivable is left: every edge, every choice with options, every incompatibility of the
+    pruned graph lies inside the derivable nodes. -/
+theorem pruneStart_only_derivable (g : DSG) :
+    (∀ e ∈ (pruneStart g).derives, e.1 ∈ derivable g ∧ e.2 ∈ derivable g) ∧
+    (∀ c ∈ (pruneStart g).sel, c.opts ≠ [] → c.origin ∈ derivable g) ∧
+    (∀ e ∈ (pruneStart g).incompat, e.1 ∈ derivable g ∧ e.2 ∈ derivable g) :=
+  pruneStart_only_derivable_all g
+
+def exPrune : DSG := { n := 8, derives := [(0,1),(4,3),(3,5),(5,4),(6,7),(7,2)], sel := [⟨1,[2,6]⟩, ⟨5,[0,1]⟩], start := [0], incompat := [(2,3)] }
+example : derivable exPrune = [0, 1, 2, 6, 7] := by decide
 
 end Adsg.C02
